@@ -50,10 +50,12 @@ def stft_ref(x, fl, fs, style, kaldi, window, D, H, use_log, use_power, include_
     nf = num_frames(N, fl, fs)
     out = np.zeros((nf, F))
     p = 2 if use_power else 1
+    xscale = 0.0
     for k in range(nf):
         s = frame_start(k, fl, fs, style, kaldi)
         frame = x[reflect_index(np.arange(s, s + fl), N)]
         X = np.fft.fft(frame * window, n=D)
+        xscale = max(xscale, float(np.sum(np.abs(X) ** p)))
         off = 0
         if include_energy:
             e = float(np.mean(frame ** 2))
@@ -63,10 +65,11 @@ def stft_ref(x, fl, fs, style, kaldi, window, D, H, use_log, use_power, include_
             out[k, off + i] = np.sum(np.abs(X * h) ** p)
     if use_log:
         out = np.log(np.maximum(out, log_floor))
+    stft_ref.last_xscale = xscale  # largest sum_k |X_k|^p over the frames (unit-gain coefficient scale)
     return out
 
 
-def compare_features(got, want, use_log, log_floor, rtol, atol):
+def compare_features(got, want, use_log, log_floor, rtol, atol, xscale=0.0):
     """Linear-domain comparison (DESIGN 3.3). -> (ok, index, detail)"""
     got = np.asarray(got, dtype=np.float64)
     want = np.asarray(want, dtype=np.float64)
@@ -81,7 +84,9 @@ def compare_features(got, want, use_log, log_floor, rtol, atol):
         a, b = np.exp(got), np.exp(want)
     else:
         a, b = got, want
-    S = float(np.max(np.abs(b)))
+    # a filter whose response is below 1e-2 on every bin of the grid only carries the bank's own
+    # rounding noise; the absolute term is therefore never smaller than atol * 1e-2 * sum|X|^p
+    S = max(float(np.max(np.abs(b))), 1e-2 * xscale)
     lim = rtol * np.maximum(np.abs(a), np.abs(b)) + atol * max(S, log_floor if use_log else 0.0)
     exc = np.abs(a - b) - lim
     i = np.unravel_index(int(np.argmax(exc)), exc.shape)
